@@ -64,7 +64,7 @@ with, as the first lines of the script,
 executes programs that have NO control flow on bools. If your demonstration needs if/while/for/
 comparisons at run time, use `import guppy_plainbool` INSTEAD of `guppy_compat` (same directory; it
 lowers Guppy bool to a plain hugr Bool so control flow runs on the emulator; `measure()` still
-cannot run — use `project_z(q)` + `discard(q)`; `tket`/pytket is not installed). Guppy functions must
+cannot run — use `project_z(q)` + `discard(q)`; pytket is installed but `tket.circuit` is not (loading circuits needs a stand-in)). Guppy functions must
 live in a real .py file (write a temporary module and import it), not in `-c` or exec'd strings.
 Modifier `with` blocks and lists need `guppylang.enable_experimental_features()`.
 No network. Use /venv/bin/python only.
